@@ -222,7 +222,7 @@ class Recorder:
                          srcBase="none" if sf is None else Path(sf).name,
                          dstName=self.w.rel(None if request.dest_file is None else Path(request.dest_file).as_posix()),
                          dIdW=request.destination_id.byte_len, dId=request.destination_id.value, known=rc is not None,
-                         msgs=[list(m.value) for m in (request.msgs_to_user or [])])
+                         msgs=[list(m.value) for m in (request.msgs_to_user or [])], xopts=_world.xopts_abs(request))
                 if self.seqprov is not None and self.seq0 is None:
                     rv = getattr(self.seqprov.get_and_increment, "return_value", None)    # some tests mock the provider
                     self.seq0 = rv if isinstance(rv, int) else getattr(self.seqprov, "count", 0)
